@@ -64,7 +64,10 @@ def judge (l : OpLine) (calls : List Call) (res : Res) (extras : List String) : 
                   (if op.name = "GetDevice" ∧ res != .err ∧ extras ≠ deviceExtras l.cfg serial f1
                    then [s!"C02 device name/address {deviceExtras l.cfg serial f1}"] else [])
                 else [s!"C02 result {showRes r1}" ++ (if inv then " (or an error: a field is out of its domain)" else "")]
-          c01 ++ c06 ++ c0203
+          -- which passcodes go out (the first four, 0 for those above 999999) is part of C07's statement too
+          let c07 := if op.name = "SetDoorPasscodes" ∧ !c01.isEmpty
+            then ["C07 SetDoorPasscodes sends the first four passcodes, 0 for those above 999999 or missing"] else []
+          c01 ++ c07 ++ c06 ++ c0203
 
 def handle : List String → List String → Option String
   | "op" :: r, impl => do
@@ -74,7 +77,11 @@ def handle : List String → List String → Option String
     | ["mutated-argument"] => some "bad C17 the operation modified a map argument it was given"
     | _ =>
       let (calls, res, extras) ← parseOutcome impl
-      let bad := judge l calls res extras
+      -- `… ; mutated-argument`: the call went through AND wrote to storage the caller passed in
+      let mutated := extras.contains "mutated-argument"
+      let extras := extras.filter (· ≠ "mutated-argument")
+      let bad := judge l calls res extras ++
+        (if mutated then ["C17 the operation modified a slice or map argument it was given"] else [])
       some (if bad.isEmpty then "ok" else "bad " ++ " | ".intercalate bad)
   | ["op-shared", _, calls], impl =>
     some (if impl = [s!"returned={((calls.splitOn "=").getD 1 "")}"] then "ok" else "bad C04 every call on a client shared by several goroutines returns | C08 concurrent use of one client")
